@@ -335,6 +335,8 @@ P_ROLLBACK_SYNC = P("rollback_sync", "rollback: begin_sync / writeout_start prun
                     "writeout_end propagates prune errors", P_BOUNDS, assumes=[ASSUME_P])
 P_SEGLOG_APPEND = P("seglog_append", "seglog::SegmentedLog::append (rollback log): header and payload are fsynced before Ok; after creating a "
                     "segment file the directory is fsynced before Ok; nothing fallible is dropped", P_BOUNDS, assumes=[ASSUME_P])
+P_ROLLBACK_COMMIT = P("rollback_commit_order", "Rollback::{commit, commit_nonblocking}: the reverse delta is pushed to the in-memory log only "
+                      "after SegmentedLog::append returned; nothing fallible is dropped", P_BOUNDS, assumes=[ASSUME_P])
 P_PRE_META = P("pre_meta_no_ht_write", "bitbox pre-meta phase (begin_sync task, WAL writeout task, prepare_sync, begin_sync, wait_pre_meta) "
                "issues no HT write; post_meta truncates the WAL only after write_ht returned", P_BOUNDS, assumes=[ASSUME_P])
 
@@ -460,7 +462,7 @@ PROPERTIES = {
             "explanation": "In each of the four commit entry points the previous-root check dominates every effect; counterexamples are "
                            "replayed as concrete API histories (stale commit, then rollback / overlay-chain completeness).",
             "outside": ["interleavings of two racing committers", "effects hidden inside Store::commit on the accepted path"]},
-    "C14": {"level": "model_checking", "obligations": [P_NO_SWALLOW, P_POISON, P_SYNC_ORDER, P_BEATREE_SYNC, P_ROLLBACK_SYNC, P_SEGLOG_APPEND],
+    "C14": {"level": "model_checking", "obligations": [P_NO_SWALLOW, P_POISON, P_SYNC_ORDER, P_BEATREE_SYNC, P_ROLLBACK_SYNC, P_SEGLOG_APPEND, P_ROLLBACK_COMMIT],
             "explanation": "No fallible I/O value is dropped uninspected in the bitbox/meta/sync orchestration; an error from Sync::sync "
                            "poisons the store before it is returned; a failure before the switch-over returns before any post-meta step. "
                            "Counterexamples are replayed with injected page-write failures against the real crate.",
